@@ -16,6 +16,7 @@ Generated:
   coq/Gen/PoolOrder.v statement order of the pool's acquire / drop / batch release (translator/poolorder.py)
   coq/Gen/LockLint.v sharded-map accesses whose guard is alive across an await (translator/locklint.py)
   coq/Gen/Headroom.v message-pool sizing and the write arm's buffer discipline (translator/headroom.py)
+  coq/Gen/ConcFlags.v segment layout of the channel manager: which statement sits before / after which await (translator/concflags.py)
   harness/src/gen_schema.rs  Message <-> generic value conversions used by the codec driver
 """
 import os
@@ -601,6 +602,12 @@ def main():
         except headroom.Shape as e:
             warnings.append(str(e))
             files[os.path.join(VERIF, "coq/Gen/Headroom.v")] = headroom.fallback("TRANSLATOR-SHAPE-ERROR: %s" % e)
+        import concflags
+        try:
+            files[os.path.join(VERIF, "coq/Gen/ConcFlags.v")] = concflags.gen(read)
+        except concflags.Shape as e:
+            warnings.append(str(e))
+            files[os.path.join(VERIF, "coq/Gen/ConcFlags.v")] = concflags.fallback("TRANSLATOR-SHAPE-ERROR: %s" % e)
     except Shape as e:
         print(f"TRANSLATOR-SHAPE-ERROR: {e}")
         return 3
